@@ -436,6 +436,38 @@ pub const REGRESSION: &[&str] = &[
     "\"\"\"a\n  \"\" b\n   \" c\"\"\"",
 ];
 
+/// Characters Unicode calls white space (or that look like it) which are not GraphQL WhiteSpace:
+/// in a block string they are content and never count as indentation.
+pub const UNICODE_SPACES: &[char] = &['\u{85}', '\u{A0}', '\u{1680}', '\u{2003}', '\u{200A}', '\u{2028}', '\u{2029}', '\u{202F}', '\u{3000}', '\u{FEFF}'];
+
+/// Every 3-line block string whose lines are one of 11 (lead, content) shapes built from blanks and
+/// one Unicode space, for each Unicode space and line terminator.
+fn unicode_space_lines(ctx: &mut Ctx) {
+    let mut idx = 0u64;
+    for ws in UNICODE_SPACES {
+        let leads = [String::new(), " ".to_string(), ws.to_string(), format!(" {ws}"), format!("{ws} ")];
+        let mut shapes: Vec<String> = vec![String::new()];
+        for l in &leads {
+            shapes.push(format!("{l}a"));
+            shapes.push(l.clone());
+        }
+        shapes.sort();
+        shapes.dedup();
+        for lt in ["\n", "\r\n"] {
+            for a in &shapes {
+                for b in &shapes {
+                    for c in &shapes {
+                        idx += 1;
+                        if ctx.mine(idx) {
+                            check_case(ctx, &format!("\"\"\"{a}{lt}{b}{lt}{c}\"\"\""), "unicode_space_lines");
+                        }
+                    }
+                }
+            }
+        }
+    }
+}
+
 fn random_block(rng: &mut Rng) -> String {
     const CONTENT: &[&str] = &["a", "b c", "é", "🚀", "\\\"\"\"", "\\", "\\n", "\"x", "\"\"y", "#", "\u{FEFF}", "z\t", "q  "];
     const LT: &[&str] = &["\n", "\n", "\r\n", "\r"];
@@ -452,6 +484,13 @@ fn random_block(rng: &mut Rng) -> String {
         };
         for _ in 0..ind {
             s.push(if rng.chance(1, 5) { '\t' } else { ' ' });
+        }
+        if rng.chance(1, 8) {
+            // a Unicode space that is not GraphQL WhiteSpace: content, not indentation
+            s.push(*rng.pick(UNICODE_SPACES));
+            if rng.bool() {
+                s.push(' ');
+            }
         }
         match rng.below(5) {
             0 => {} // whitespace-only (or empty) line
@@ -510,6 +549,7 @@ pub fn run(ctx: &mut Ctx) {
         }
     }
     let (bmax, qmax) = if ctx.quick() { (6, 5) } else { (6, 6) };
+    unicode_space_lines(ctx);
     enumerate(ctx, "block-body-8", BLOCK_ALPHABET, "\"\"\"", bmax);
     enumerate(ctx, "quoted-body-10", QUOTED_ALPHABET, "\"", qmax);
     ctx.note("exhaustive_phase_finished_at_budget_fraction", json!(ctx.used()));
